@@ -187,7 +187,9 @@ func TestC16(t *testing.T) {
 				return
 			}
 			verdict := "accepted"
-			if res.Err != "" {
+			if res.Err == model.ErrCondFailed {
+				verdict = "accepted(condition false)"
+			} else if res.Err != "" {
 				verdict = "rejected"
 			}
 			st.Case(true, op)
